@@ -39,15 +39,17 @@ Next ==
                              Viol("C04", "CellEq", l, [x |-> d[1] - 1, y |-> d[2] - 1, src |-> CellAt(e.src, d[1], d[2]), back |-> CellAt(e.back, d[1], d[2]),
                                                        shown_src |-> s, shown_back |-> b, ice |-> e.ice, opts |-> e.opts, w |-> e.w, h |-> e.h]))
                     \* ---- model layer: the reader model over the writer's tokens ------------------------
-                    /\ (IF \A k \in 1..Len(e.tokens) : ValidToken(e.tokens[k]) THEN TRUE
-                        ELSE Drift("grammar", l, [tok |-> (CHOOSE k \in 1..Len(e.tokens) : ~ValidToken(e.tokens[k]))]))
-                    /\ LET m == ReadAll(e.w, e.tokens) IN
-                       /\ Bump(6)
-                       /\ Expect(m.bad = 0, "reader-undefined", l, [case |-> e.case])
-                       \* reader fault: the model reads the tokens differently from the loader
-                       /\ Expect(ModelMatches(m.rows, e.back, e.bice, e.bpal), "reader-model", l, [case |-> e.case, opts |-> e.opts])
-                       \* writer fault: the tokens, read by the model, do not show the source
-                       /\ (IF ModelMatches(m.rows, e.src, e.ice, e.pal) THEN TRUE ELSE Bump(7) /\ Drift("writer-tokens", l, [case |-> e.case, opts |-> e.opts]))
+                    /\ (IF e.model = 0 THEN TRUE
+                        ELSE
+                          /\ (IF \A k \in 1..Len(e.tokens) : ValidToken(e.tokens[k]) THEN TRUE
+                              ELSE Drift("grammar", l, [tok |-> e.tokens[CHOOSE k \in 1..Len(e.tokens) : ~ValidToken(e.tokens[k])]]))
+                          /\ LET m == ReadAll(e.w, e.tokens) IN
+                             /\ Bump(6)
+                             /\ Expect(m.bad = 0, "reader-undefined", l, [case |-> e.case])
+                             \* reader fault: the model reads the tokens differently from the loader
+                             /\ Expect(ModelMatches(m.rows, e.back, e.bice, e.bpal), "reader-model", l, [case |-> e.case, opts |-> e.opts])
+                             \* writer fault: the tokens, read by the model, do not show the source
+                             /\ (IF ModelMatches(m.rows, e.src, e.ice, e.pal) THEN TRUE ELSE Bump(7) /\ Drift("writer-tokens", l, [case |-> e.case, opts |-> e.opts])))
           [] OTHER -> Viol("TOOL", "unknown-event", l, e.ev)
   /\ l' = l + 1
 Spec == Init /\ [][Next]_vars
